@@ -40,7 +40,7 @@ RT_MODES = ["vasp", "abinit", "aims", "castep", "dftbp", "elk", "lammps", "pwmat
 
 
 def units(tier):
-    u = [("units", c) for c in CALCS] + [("table", 0), ("lattice", "wien2k"), ("lattice", "cells"), ("lattice", "cp2k"), ("sorting", 3), ("agreement", 0)] + [("wien2k", c, k) for c in ("rocksalt", "rocksalt111", "tetragonal") for k in ("first", "last", "mid")] + [("roundtrip", m) for m in RT_MODES] + [("magmom", "vasp"), ("forces", "lammps")]
+    u = [("units", c) for c in CALCS] + [("table", 0), ("lattice", "wien2k"), ("lattice", "cells"), ("lattice", "cp2k"), ("sorting", 3), ("agreement", 0)] + [("wien2k", c, k) for c in ("rocksalt", "rocksalt111", "tetragonal") for k in ("first", "last", "mid")] + [("roundtrip", m) for m in RT_MODES] + [("magmom", "vasp"), ("forces", "lammps")] + [("displaced", m) for m in RT_MODES]
     if tier == "thorough":
         u += [("sorting", 4)]
     return u
@@ -810,10 +810,56 @@ def forces_unit(u, res):
     return res
 
 
+def displaced_unit(u, res):
+    """write_supercells_with_displacements through phonopy's dispatch: the file numbered with id k, read back by the same interface,
+    describes the k-th displaced supercell (not the perfect one, not another displacement) and the unnumbered file the perfect supercell
+    (ground facts on the triclinic interleaved cell with two different single-atom displacements and non-consecutive ids 1 and 7)."""
+    import tempfile, shutil, os
+    from phonopy.interface.calculator import write_supercells_with_displacements, read_crystal_structure
+    mode = u[1]
+    label, cell = list(_rt_cells().items())[0]
+    c1 = cell.copy(); p_ = c1.positions; p_[1] += [0.03, 0, 0]; c1.positions = p_
+    c2 = cell.copy(); p_ = c2.positions; p_[3] += [0, 0, -0.03]; c2.positions = p_
+    want = {"001": c1, "007": c2, None: cell}
+    d = tempfile.mkdtemp(prefix="verif_c17_")
+    cwd = os.getcwd()
+    facts = []
+    try:
+        os.chdir(d)
+        try:
+            write_supercells_with_displacements(mode, cell, [c1, c2], _rt_extras(mode, cell), displacement_ids=[1, 7])
+            names = sorted(os.listdir(d))
+            tags = {("001" if "001" in n else "007" if "007" in n else None): n for n in names}
+            facts.append(("three files: ids 001, 007 and the perfect supercell", len(names) == 3 and set(tags) == {"001", "007", None}, "files written: %s" % names))
+            for tag, n in tags.items():
+                os.chdir(d)
+                try:
+                    back = read_crystal_structure(_rt_complete(mode, os.path.join(d, n), want.get(tag, cell)), interface_mode=mode)[0]
+                    why = _same_crystal(want.get(tag, cell), back, tol=1e-6)
+                    others = [t for t in want if t != tag and _same_crystal(want[t], back, tol=1e-6) is None]
+                    if why is None and others:
+                        why = "the file also matches the cell of %s (displacements indistinguishable at the written precision)" % others
+                except Exception as exc:
+                    why = "%s: %s" % (type(exc).__name__, exc)
+                facts.append(("file %s is the %s" % (n, "perfect supercell" if tag is None else "supercell with displacement id " + tag), why is None, "%s: %s" % (n, why)))
+        except Exception as exc:
+            facts.append(("write_supercells_with_displacements completes", False, "%s: %s" % (type(exc).__name__, exc)))
+    finally:
+        os.chdir(cwd)
+        shutil.rmtree(d, ignore_errors=True)
+    for name, ok, why in facts:
+        res.queries.append({"name": "%s displaced supercells: %s [ground fact]" % (mode, name), "verdict": "unsat" if ok else "sat", "seconds": 0.0, "nvars": 0, "nontrivial": False, "hash": "ground"})
+        if not ok:
+            res.violations.append({"key": "%s:displaced:%s:%s" % (PID, mode, name.split(" ")[1] if name.startswith("file") else "files"), "what": "%s interface, displaced supercells: %s" % (mode, why), "replay": {"interface": mode}})
+    res.twins.append({"name": "displaced twin", "verdict": "sat"})
+    res.samples.append({"unit": res.unit, "cell": label})
+    return res
+
+
 def run_unit(u):
     res = Result("/".join(str(x) for x in u))
     harness.setup()
-    return {"units": units_unit, "table": table_unit, "lattice": lattice_unit, "sorting": sorting_unit, "agreement": agreement_unit, "wien2k": wien2k_unit, "roundtrip": roundtrip_unit, "magmom": magmom_unit, "forces": forces_unit}[u[0]](u, res)
+    return {"units": units_unit, "table": table_unit, "lattice": lattice_unit, "sorting": sorting_unit, "agreement": agreement_unit, "wien2k": wien2k_unit, "roundtrip": roundtrip_unit, "magmom": magmom_unit, "forces": forces_unit, "displaced": displaced_unit}[u[0]](u, res)
 
 
 def main(tier, seed):
